@@ -1643,6 +1643,23 @@ fn run_case(rec: &mut Recorder, machine: &Machine, seed: u64, shape: u64, len: u
                 batch_experiment(&mut cx, i, k, class, detail, m);
             }
         }
+        // the parent is the head of the perspective in flight (previous command of the same
+        // batch) and only its max cut is wrong: the id matches, the signature verifies, the rule
+        // runs — and the command still must not leave anything behind
+        if let Prior::Single(p) = w.cmds[i].w.parent {
+            if i >= 1 && w.cmds[i - 1].w.id == p.id {
+                for (n, delta) in [(9001usize, 1u64), (9002, 1000)] {
+                    if only.is_some_and(|sel| !sel.contains(&(i, n))) {
+                        continue;
+                    }
+                    let m = WCmd { parent: Prior::Single(Address { id: p.id, max_cut: MaxCut::new(p.max_cut.get() + delta) }), ..w.cmds[i].w.clone() };
+                    let have: Vec<bool> = (0..w.cmds.len()).map(|j| j < i).collect();
+                    cx.cur = describe(&w, &have, true, &m, &format!("{i}.{n}")).req;
+                    cx.rec.count("class:inflight-parent-maxcut");
+                    batch_experiment(&mut cx, i, i - 1, "inflight-parent-maxcut", &format!("+{delta}"), &m);
+                }
+            }
+        }
     }
 }
 
